@@ -39,7 +39,8 @@ THEOREMS['C04'] = ['FB.C04_exists_iff', 'FB.C04_not_both', 'FB.C04_listDir_iff',
                    'FB.Overlay.not_both', 'FB.Overlay.exists_eq', 'FB.Overlay.filterExisting_sub',
                    'FB.Overlay.C04_start_exists', 'FB.Overlay.start_isFile', 'FB.Overlay.start_isDir']
 THEOREMS['C02'] = ['FB.C02_rolledBack_frame', 'FB.C02_rolledBack_files', 'FB.C02_spec_build_raises', 'FB.Backups.restoreAll_spec',
-                   'FB.Backups.restoreOne_self', 'FB.Backups.restoreOne_other', 'FB.Backups.backUp_file']
+                   'FB.Backups.restoreOne_self', 'FB.Backups.restoreOne_other', 'FB.Backups.backUp_file',
+                   'FB.Rollback.rollBack_restores_files', 'FB.Rollback.removeNew_spec', 'FB.Rollback.restoreAll_file_from']
 THEOREMS['C14'] = ['FB.C14_fault_surfaces', 'FB.C02_spec_build_raises', 'FB.C02_rolledBack_files']
 THEOREMS['C03'] = ['FB.C03_impl_build', 'FB.C03_impl_buildGo', 'FB.C03_impl_run_frame', 'FB.replayOp_frame', 'FB.C03_run_frame',
                    'FB.C12_preClean_frame', 'FB.C02_rolledBack_files', 'FB.C12_impl_clean_is_preClean']
@@ -393,9 +394,13 @@ def check_C05(tier):
     cases = corpus_cases(ds)
     cases += gen.gen_scenario_cases(core.seed() * 31 + 5, budget(tier, 25, 600), ds, gen.SCENARIOS)
     cases += random_cases(tier, 700, 40000, 5, dirsize=ds, p_fail=0.05, p_clean=0.03, min_builds=3, max_builds=6)
+    # container arguments, handed to functions that edit them in place: the record must not change with them
+    cases += gen.gen_scenario_cases(core.seed() * 31 + 105, budget(tier, 60, 1200), ds, [gen.scen_identity])
     for i, c in enumerate(cases):
         if not str(c.get('seed', '')).startswith('corpus:') and i % 4 == 0:
             c['spell'] = core.seed() * 7919 + i
+        if not str(c.get('seed', '')).startswith('corpus:') and i % 4 in (1, 3):
+            c['callee_mutates'] = True
     explore('C05', tier, rep, cases)
     if probs and not rep.violations:
         p = probs[0]
